@@ -78,6 +78,21 @@ func c18m(c *Ctx) {
 				}
 			} else if f, _, ok := flatTemplate(msg, 0); ok {
 				tmpl = f
+			} else if hc, isHelper := msg.(*ssa.Call); isHelper && callee(hc) != nil && c.W.InRepo(callee(hc)) && len(callee(hc).Blocks) == 1 {
+				// the text is made by a straight-line helper of the repository
+				// (`missingOpeningBraceMessage(kind, name)`): its template is the message
+				for _, r := range returnsOf(callee(hc)) {
+					if len(r.Results) != 1 {
+						continue
+					}
+					if f, _, ok := sprintfOf(r.Results[0]); ok {
+						tmpl = f
+					} else if f, _, ok := flatTemplate(r.Results[0], 0); ok {
+						tmpl = f
+					} else if s2, isC := strConst(r.Results[0]); isC {
+						tmpl = s2
+					}
+				}
 			} else if call, isCall := msg.(*ssa.Call); isCall && strings.HasSuffix(calleeName(call), ".Error") {
 				// the text of another error handed on at a new place (C18.e judges re-wrapping)
 				continue
